@@ -8,8 +8,9 @@ unmodified copy must be silent.  Edits are exact text replacements (asserted to 
 M = []
 
 
-def m(mid, prop, rule, key, file, old, new):
-    M.append({'id': mid, 'prop': prop, 'rule': rule, 'key': key, 'file': file, 'old': old, 'new': new})
+def m(mid, prop, rule, key, file, old, new, more=()):
+    M.append({'id': mid, 'prop': prop, 'rule': rule, 'key': key, 'file': file, 'old': old, 'new': new,
+              'more': list(more)})
 
 
 # ---- traversal -------------------------------------------------------------------------------
@@ -49,7 +50,7 @@ m('K2-getkind-hardcoded', 'C02', 'K2', 'FlattenIntoImpl->PyTreeTypeRegistry::Get
   """        node.kind =
             PyTreeTypeRegistry::GetKind<NONE_IS_NODE>(handle, node.custom, registry_namespace);
         const auto recurse =""")
-m('K3-iter-sorts-defaultdict-always', 'C03', 'K3', 'NextImpl/DefaultDict', 'src/treespec/traversal.cpp',
+m('K3-iter-sorts-defaultdict-always', 'C03', 'K3', 'FlattenIntoImpl~NextImpl/DefaultDict', 'src/treespec/traversal.cpp',
   """                if (kind != PyTreeKind::OrderedDict && !m_is_dict_insertion_ordered) [[likely]] {
                     TotalOrderSort(keys);
                 }""",
@@ -459,9 +460,9 @@ m('A3-traverse-skips-original-keys', 'C14', 'A3', 'PyTreeSpec::PyTpTraverse/orig
 """, "")
 m('A3-registration-handle', 'C14', 'A3', 'Registration/type/owning', 'include/optree/registry.h',
   """        py::object type{};
-        py::function flatten_func{};""",
+        // A function with signature: object -> (iterable, metadata, entries)""",
   """        py::handle type{};
-        py::function flatten_func{};""")
+        // A function with signature: object -> (iterable, metadata, entries)""")
 m('A5-flattenupto-sorts-spec-keys', 'C14', 'A5', 'PyTreeSpec::FlattenUpTo/TotalOrderSort', 'src/treespec/flatten.cpp',
   """                if (!DictKeysEqual(expected_keys, dict)) [[unlikely]] {
                     const py::list keys = SortedDictKeys(dict);""",
@@ -556,10 +557,16 @@ m('L5-agenda-reference', 'C17', 'L5', 'PyTreeIter::NextImpl/agenda-local', 'src/
   """        auto [object, depth] = m_agenda.back();
         m_agenda.pop_back();
 """,
-  """        auto& [object_ref, depth_ref] = m_agenda.back();
-        py::object object = object_ref;
-        ssize_t depth = depth_ref;
-""")
+  """        auto [object, depth] = m_agenda.back();
+""",
+  more=[("""        PyTreeTypeRegistry::RegistrationPtr custom{nullptr};
+        const PyTreeKind kind =
+            PyTreeTypeRegistry::GetKind<NoneIsLeaf>(object, custom, m_namespace);
+""", """        m_agenda.pop_back();
+        PyTreeTypeRegistry::RegistrationPtr custom{nullptr};
+        const PyTreeKind kind =
+            PyTreeTypeRegistry::GetKind<NoneIsLeaf>(object, custom, m_namespace);
+""")])
 m('T3-namedtuple-cache-no-weakref', 'C18', 'T3', 'IsNamedTupleClass/cache/evicted', 'include/optree/pytypes.h',
   """            cache.emplace(type, result);
             (void)py::weakref(type, py::cpp_function([type](py::handle weakref) -> void {
